@@ -365,7 +365,7 @@ impl HllSketch {
                     match hll_type {
                         HllType::Hll4 => {
                             let cur_min = state;
-                            Array4::deserialize(cursor, cur_min, lg_config_k, compact, ooo)
+                            Array4::deserialize(cursor, cur_min, lg_config_k, lg_arr, compact, ooo)
                                 .map(Mode::Array4)?
                         }
                         HllType::Hll6 => Array6::deserialize(cursor, lg_config_k, compact, ooo)
